@@ -44,9 +44,15 @@ def encode(t):
 
     """
     # Mapping from subterms to newly introduced variables
+    # (the new variables must be different from the variables of t)
     subterm_dict = dict()
-    for i, subt in enumerate(logic_subterms(t)):
-        subterm_dict[subt] = Var('x' + str(i+1), BoolType)
+    used_names = set(v.name for v in t.get_vars())
+    i = 0
+    for subt in logic_subterms(t):
+        i += 1
+        while 'x' + str(i) in used_names:
+            i += 1
+        subterm_dict[subt] = Var('x' + str(i), BoolType)
 
     # Collect list of equations
     eqs = []
